@@ -55,7 +55,7 @@ def run(ctx):
     for variant in range(2):
         droot = ctx.scratch(f"reexport{variant}")
         dws = gen.WS(droot)
-        dws.files = {"conftest.py": "from .fxm import *\nfrom .fxn import *\n",
+        dws.files = {"conftest.py": "from .fxm import *\nfrom .fxn import *\n" + (WHDR + wfx("uses_imported", 9, deps=["fx_a"]) if variant == 1 else ""),
                      "fxm.py": WHDR + wfx("fx_a", 1), "fxn.py": WHDR + wfx("fx_b", 2) + wfx("fx_c", 3, deps=["fx_b"]),
                      "__init__.py": "",
                      "test_probe.py": WHDR + "def test_p(fx_a, fx_b, fx_c):\n    pass\n\n@pytest.mark.usefixtures()\ndef test_zz_view_probe():\n    pass\n"}
@@ -69,7 +69,8 @@ def run(ctx):
         shutil.rmtree(droot, ignore_errors=True)
     for i in range(n):
         root = ctx.scratch(f"w{i}")
-        ws = gen.gen_workspace(root, ctx.rng, depth=ctx.rng.randint(1, 3), venv=(i % 2 == 0), indirect_multi=True)
+        ws = gen.gen_workspace(root, ctx.rng, depth=ctx.rng.randint(1, 3), venv=(i % 2 == 0), indirect_multi=True,
+                               ws_plugin=(True if i == 0 else None))
         materialize(ws)
         one(ctx, ws.root, ws.abs_files(), ws.files, generated=True, spec=ws.spec)
         ctx.sample({"spec": ws.spec})
@@ -238,6 +239,12 @@ def one(ctx, root, abs_files, rel_files, generated, spec):
                             ids["outgoingCalls"] = tos[0] if len(tos) == 1 else (None if not tos else ("multiple", tuple(tos)))
                     # inlay hint on this usage
                     lab = hint_at.get((u["line"] - 1, u["end_b"]))
+                    if lab is None and generated and not u.get("annotated") and not u.get("string") and ids.get("definition") \
+                            and u["kind"] in ("test_param", "fixture_param"):
+                        # an unannotated parameter that resolves to a definition with a return type carries a hint
+                        kk = d2k.get(ids["definition"])
+                        if kk is not None and k2d[kk][2].get("return_type"):
+                            ids["inlayHint"] = None
                     if lab is not None and generated and not u.get("annotated") and not multi_indirect:
                         lab = lab if isinstance(lab, str) else "".join(x["value"] for x in lab)
                         mm = T_RE.search(lab)
